@@ -24,7 +24,7 @@ IsNum(v) == v[1] = "n"
 IsStr(v) == v[1] = "s"
 IsTab(v) == v[1] = "t"
 IsFn(v) == v[1] = "f" \/ v[1] = "bi" \/ v[1] = "wf"
-IsOpaqueStr(v) == v[1] \in {"rtmsg", "anystr", "fault", "sfx"}   \* "sfx": any string ending in the given bytes    \* a string whose text is implementation-defined
+IsOpaqueStr(v) == v[1] \in {"rtmsg", "anystr", "fault", "sfx", "any"}   \* "sfx": any string ending in the given bytes; "any": a value the manual does not fix    \* a string whose text is implementation-defined
 Truthy(v) == ~(v[1] = "nil" \/ (v[1] = "b" /\ v[2] = FALSE))
 
 Lim == 1073741824          \* 2^30
@@ -50,6 +50,7 @@ TypeName(v) ==
       [] v[1] = "anystr" -> "string"
       [] v[1] = "fault" -> "string"
       [] v[1] = "sfx" -> "string"
+      [] v[1] = "any" -> "string"
       [] v[1] = "wf" -> "function"
       [] v[1] = "t" -> "table"
       [] v[1] = "f" -> "function"
